@@ -49,8 +49,8 @@ const (
 	originA   = "10.0.0.1:7001"
 	hostA     = "a.test"
 	hostB     = "b.test"
-	storeURL  = "badger:///sim/disk0"
-	storeURL2 = "badger:///sim/disk1"
+	storeURL  = "badger:///proc/verif-sim/disk0" // a path that can never be created: if the simulated store is not registered the real badger open fails at once
+	storeURL2 = "badger:///proc/verif-sim/disk1"
 )
 
 // baseConfig: one cache, one upstream with one server, one catch-all location, one server.
